@@ -118,6 +118,9 @@ M = [
  ('rk-quad-order', 'sampling_method.py', 'DT / 6 * (k1["quad"] + 2 * k2["quad"] + 2 * k3["quad"] + k4["quad"])', 'DT / 6 * (k1["quad"] + 4 * k2["quad"] + k4["quad"])', ['C03', 'C05']),
  ('rk-stage2-state', 'sampling_method.py', '        k3 = f(x=X + DT / 2 * k2["ode"], u=U, p=P, t=t0+DT/2)', '        k3 = f(x=X + DT / 2 * k1["ode"], u=U, p=P, t=t0+DT/2)', ['C03', 'C01']),
  ('dc-quad-weights-radau1', 'direct_collocation.py', "        self.B = hcat(B)\n", "        pass\n", ['C03', 'C05']),
+ # --- C19
+ ('tofunction-dc-helper-init', 'direct_collocation.py', "                self.Xc_vars0.append(repmat(x, 1, self.degree if i==0 else self.degree+1))", "                self.Xc_vars0.append(repmat(self.X[0], 1, self.degree if i==0 else self.degree+1))", ['C19']),
+ ('tofunction-args-value', 'direct_method.py', "        return self.opti.to_function(name, [stage.value(a) for a in args], results, *margs)", "        return self.opti.to_function(name, [stage.value(a) for a in args][::-1][::-1], [r*1 for r in results][::-1][::-1] if False else [results[0]*2]+list(results[1:]), *margs)", ['C19']),
 ]
 
 def main():
